@@ -59,6 +59,7 @@ class LinChecker {
  public:
   std::vector<TOp> ops;      // all operations of the concurrent phase
   int ntasks = 0;
+  bool tracer_alive = false; // a tracer was installed before the concurrent phase: every accepted call delivers one record
   bool no_hint = false;      // self-test: decide by the general search alone (SIM_LIN_NOHINT=1)
   bool debug = false;        // replay -v: print where the search gets stuck
   mutable int dbg_left = 60, dbg_steps = 400;
@@ -194,6 +195,7 @@ class LinChecker {
         if (h >= 0 && h != cand) { why = "call handled by exp#" + std::to_string(h) + " but the model's candidate is exp#" + std::to_string(cand); return 0; }
         for (auto& c : o.obs.clauses) if (c.kind != 'W' && c.inst != cand) { why = "action of a foreign expectation ran"; return 0; }
         if (o.obs.oks.size() != 1) { why = std::to_string(o.obs.oks.size()) + " OK reports for an accepted call"; return 0; }
+        if (tracer_alive && o.obs.traces.size() != 1) { why = std::to_string(o.obs.traces.size()) + " trace records delivered during an accepted call (to the thread that made it)"; return 0; }
         MExp& e = M.exps[static_cast<size_t>(cand)];
         e.n++;
         for (int i = 0; i < e.nseq; ++i) if (e.in_seq[i] && e.seq[i] >= 0) M.retire_until(e.seq[i], false, cand);
